@@ -134,7 +134,7 @@ impl Gen {
             }
             return Expr::Int(self.small_int());
         }
-        match self.rng.below(22) {
+        match self.rng.below(23) {
             0 | 1 => Expr::Int(self.small_int()),
             2 | 3 => match self.pick_var(&Ty::Int) {
                 Some(v) => Expr::Ident(v),
@@ -230,6 +230,49 @@ impl Gen {
                 });
                 let lp = Expr::For(vec![ForIt::Iter(IterKind::Normal, Pat::Ident(x), lst)], ForBody::Exec(b(body)));
                 Expr::Coalesce(b(lp), b(Expr::Int(-7)))
+            }
+            21 => {
+                // switch: literal arms, then (usually) a binding or wildcard catch-all; each arm has its
+                // own scope
+                self.feat("switch");
+                let sc = self.gen_int(d - 1);
+                let narms = 1 + self.rng.below(3);
+                let mut arms = vec![];
+                for _ in 0..narms {
+                    let lit = *self.rng.pick(&[0, 1, 2, 3, 5, 7]);
+                    let body = self.in_frame(|g| g.conditional(|g| g.gen_int(d - 1)));
+                    arms.push((Pat::Lit(lit), body));
+                }
+                match self.rng.below(4) {
+                    0 => {
+                        self.feat("switch-no-catch-all");
+                    }
+                    1 => {
+                        let body = self.in_frame(|g| g.conditional(|g| g.gen_int(d - 1)));
+                        arms.push((Pat::Underscore, body));
+                    }
+                    _ => {
+                        // a binding arm; sometimes it shadows an outer variable's name
+                        let x = match self.pick_assignable(&Ty::Int) {
+                            Some(v) if self.rng.chance(1, 3) => {
+                                self.feat("switch-arm-shadows");
+                                v
+                            }
+                            _ => self.fresh(),
+                        };
+                        let body = self.in_frame(|g| {
+                            g.declare(&x, Ty::Int);
+                            g.conditional(|g| g.gen_int(d - 1))
+                        });
+                        arms.push((Pat::Ident(x), body));
+                    }
+                }
+                let e = Expr::Switch(b(sc), arms);
+                if self.try_depth > 0 {
+                    e
+                } else {
+                    Expr::Try(b(e), Pat::Underscore, b(Expr::Int(-6)))
+                }
             }
             20 if self.allow_eval => {
                 self.feat("eval");
